@@ -161,7 +161,7 @@ PROPERTIES = {
         "explanation": "R-COLLIDE, R-CASTORDER, R-INFRESOLVE, R-VARSHIFT, R-ACCDTYPE (integer block accumulators are as wide as the final dtype)",
     },
     "C03": {
-        "rules": [rule_keys, rule_order, rule_axiskey, rule_global, rule_algebra, rule_contig, rule_pure, rule_passthrough_sort, rule_wholepart],
+        "rules": [rule_keys, rule_order, rule_axiskey, rule_global, rule_algebra, rule_contig, rule_pure, rule_passthrough_sort, rule_wholepart, rule_counter],
         "thorough": [selftest, seeded_regression],
         "technique": "def-use closure of graph keys over enclosing loops; taint (unordered source -> block selection) with sanitizers; "
                      "module-state scan; associativity column of the monoid table",
